@@ -20,7 +20,8 @@ else:
     print("")
 PY
 )
-if [ -z "$msg" ]; then echo "no mail header in patch; give a message"; exit 2; fi
+if [ -z "$msg" ]; then msg="$2"; fi
+if [ -z "$msg" ]; then echo "no mail header in patch; give a message as 2nd argument"; git checkout -- .; exit 2; fi
 git add -A
 git commit -q -m "$msg"
 git log --oneline | head -1
